@@ -343,7 +343,12 @@ fn cond(rng: &mut Rng) -> String {
 }
 
 pub fn stmt(rng: &mut Rng) -> Vec<String> {
-    let s = match rng.below(30) {
+    let s = match rng.below(33) {
+        // statements that already carry a scoped suppression comment of their own (part of the base
+        // program): the inserted comment then has to coexist with other suppression actions
+        30 => return vec!["---@diagnostic disable-next-line: unused".into(), format!("local {} = 1", l(rng))],
+        31 => return vec!["---@diagnostic disable-next-line: undefined-global".into(), format!("{}()", g(rng))],
+        32 => return vec![format!("{}() ---@diagnostic disable-line: undefined-global", g(rng))],
         0..=4 => format!("{}()", g(rng)),
         5 => format!("{}({})", g(rng), g(rng)),
         6..=8 => format!("local {} = 1", l(rng)),
